@@ -399,15 +399,21 @@ def classify(lines, impl, rc, fixm, oldm, curm=None):
     return "corr", d, "impl=%s model=%s" % (impl_s[d][:300] if d < len(impl_s) else "<none>", fixm[d][:300] if d < len(fixm) else "<none>")
 
 
-def shrink(ctx, harness, lines, verdict):
+def shrink(ctx, harness, lines, verdict, index=None):
     """greedy line removal keeping the verdict (setup lines are kept)"""
     def verdict_of(ls):
-        impl, rc, _ = run_harness(ctx, harness, ls, 30)
+        impl, rc, _ = run_harness(ctx, harness, ls, 120)
         text = "\n".join(ls) + "\n"
-        return classify(ls, impl, rc, ctx.driver(["c10"], text), ctx.driver(["c10", "old"], text), ctx.driver(["c10", "cur"], text))[0]
+        with concurrent.futures.ThreadPoolExecutor(max_workers=3) as ex:
+            fm = [ex.submit(ctx.driver, ["c10"] + a, text) for a in ([], ["old"], ["cur"])]
+            ms = [f.result() for f in fm]
+        return classify(ls, impl, rc, ms[0], ms[1], ms[2])[0]
     cur = list(lines)
+    # first cut the tail: nothing after the line the verdict was found at should be needed
+    if index is not None and 0 <= index < len(lines) - 1 and verdict_of(lines[:index + 1]) == verdict:
+        cur = list(lines[:index + 1])
     changed = True
-    budget = 300
+    budget = 100
     while changed and budget > 0:
         changed = False
         i = len(cur) - 1
@@ -471,8 +477,8 @@ def report(ctx, harness, res, counts):
     elif v == "D3":
         ctx.violation(KEY_D3, "sqfs_meta_reader_read after a failed seek: data_used - offset wraps (%s)" % res["detail"][:300], replay)
     else:
-        if counts[v] <= 3:
-            small = shrink(ctx, harness, lines, v) if len(lines) < 2000 and not os.environ.get("VERIF_C10_NOSHRINK") else lines
+        if counts[v] <= 2:
+            small = shrink(ctx, harness, lines, v, res["index"]) if len(lines) < 2000 and not os.environ.get("VERIF_C10_NOSHRINK") else lines
             replay["script"] = small
             what = {"hist": "history-dependent answer: the same query is answered differently by a used reader and by a fresh reader",
                     "crash": "real reader code aborted (sanitizer/signal/timeout)",
